@@ -157,6 +157,11 @@ def main(tier: str) -> int:
         sid += 1
         runs.append((cn, dict(pop_size=10, iters=12 if cn.endswith("GA") else 8, objective="onemax", elitism=True, seed=chk.seed * 100 + sid, keep_history=True, K=3,
                               selection_threshold_proba=0.02, crossover_threshold_proba=0.08, mutation_threshold_proba=0.2)))
+    # "all thresholds", with the 'empty' crossover (its start value is fixed at 0.1): floors above and below 0.1
+    for thr_c in (0.15, 0.3):
+        sid += 1
+        runs.append(("SelfCGA", dict(pop_size=10, iters=6, objective="onemax", elitism=True, seed=chk.seed * 100 + sid, keep_history=True, K=2,
+                                     crossovers=("empty", "uniform_2", "one_point") if thr_c > 0.2 else ("empty", "uniform_2"), crossover_threshold_proba=thr_c)))
     for cn, cfg in runs:
         d = {"optimizer": cn, **{k: (list(v) if isinstance(v, tuple) else v) for k, v in cfg.items()}}
         try:
